@@ -17,6 +17,8 @@ pub struct GenCfg {
     pub trait_pct: u32,
     pub max_variants: usize,
     pub max_fields: usize,
+    pub min_variants: usize,
+    pub min_fields: usize,
     pub generics: bool,
     pub lifetimes: bool,
     pub consts: bool,
@@ -64,6 +66,8 @@ impl GenCfg {
             trait_pct: 35,
             max_variants: 5,
             max_fields: 5,
+            min_variants: 0,
+            min_fields: 0,
             generics: true,
             lifetimes: true,
             consts: true,
@@ -253,6 +257,7 @@ pub fn build(d: &mut Dna, cfg: &GenCfg) -> Built {
             let w = [8u32, 15, 30, 25, 12, 10];
             let n = d.weighted(&w[..(cfg.max_variants + 1).min(6)]);
             // Deref/DerefMut/Into need at least one variant; Default needs one too
+            let n = n.max(cfg.min_variants);
             if n == 0 && (has(Tr::Deref) || has(Tr::DerefMut) || has(Tr::Into) || has(Tr::Default)) {
                 1
             } else {
@@ -314,7 +319,7 @@ pub fn build(d: &mut Dna, cfg: &GenCfg) -> Built {
         let shape = match kind {
             Kind::Union => Shape::Named,
             _ => {
-                let unit_ok = !(needs_field);
+                let unit_ok = !needs_field && cfg.min_fields == 0;
                 let w = if unit_ok { [25u32, 37, 38] } else { [0u32, 50, 50] };
                 [Shape::Unit, Shape::Named, Shape::Tuple][d.weighted(&w)]
             },
@@ -328,6 +333,9 @@ pub fn build(d: &mut Dna, cfg: &GenCfg) -> Built {
         };
         if (needs_field || kind == Kind::Union) && nfields == 0 {
             nfields = 1;
+        }
+        if shape != Shape::Unit {
+            nfields = nfields.max(cfg.min_fields);
         }
         if kind == Kind::Union {
             nfields = nfields.min(4);
